@@ -53,16 +53,18 @@ let check inp obs =
     let byn = String.concat "," (List.map (fun (k, r) ->
         xs (int_of_n k) ^ "=" ^ (match r with Ok h -> id_of h | _ -> "!")) o.o_bynum) in
     let fl = String.concat "" (List.map (fun (_, x) ->
-        Printf.sprintf "%02x" ((if x.fl_db then 16 else 0) + (if x.fl_has then 8 else 0) + (if x.fl_get then 4 else 0)
+        Printf.sprintf "%02x" ((if x.fl_block then 64 else 0) + (if x.fl_body then 32 else 0) + (if x.fl_db then 16 else 0) + (if x.fl_has then 8 else 0) + (if x.fl_get then 4 else 0)
             + (if x.fl_unfin then 2 else 0) + (if x.fl_trie then 1 else 0))) o.o_flags) in
     let dbn = String.concat "," (List.map (fun (k, r) ->
         xs (int_of_n k) ^ "=" ^ (match r with Some h -> id_of h | None -> "-")) o.o_dbnum) in
-    Printf.sprintf "%s;%s;%s;%s;%s;%s" hi byn fl (xs (int_of_n o.o_tries))
-      (match best with Ok h -> id_of h | _ -> "err") dbn in
+    let bkn = String.concat "," (List.map (fun (k, r) ->
+        xs (int_of_n k) ^ "=" ^ (match r with Ok h -> id_of h | _ -> "!")) o.o_blocknum) in
+    Printf.sprintf "%s;%s;%s;%s;%s;%s;%s" hi byn fl (xs (int_of_n o.o_tries))
+      (match best with Ok h -> id_of h | _ -> "err") dbn bkn in
   (* parsing of an implementation observation *)
   let parse_obs s : obs option =
     match split ';' s with
-    | [hi; byn; fl; tl; _best; dbn] ->
+    | [hi; byn; fl; tl; _best; dbn; bkn] ->
       (try
         let oh = if hi = "err" then Err (nat_of_int 9) else if hi = "?" then Ok never_hash else Ok (hash (hexi hi)) in
         let ob = List.map (fun e -> match split '=' e with
@@ -73,12 +75,16 @@ let check inp obs =
         let ofl = List.init (nblk + 1) (fun i ->
             let v = hexi (String.sub fl (2 * i) 2) in
             (hash i, { fl_has = v land 8 <> 0; fl_get = v land 4 <> 0; fl_unfin = v land 2 <> 0; fl_trie = v land 1 <> 0;
-                       fl_db = v land 16 <> 0 })) in
+                       fl_db = v land 16 <> 0; fl_body = v land 32 <> 0; fl_block = v land 64 <> 0 })) in
+        let okn = List.map (fun e -> match split '=' e with
+            | [k; v] -> (n_of_int (hexi k),
+                         if v = "!" then Err (nat_of_int 9) else if v = "?" then Ok never_hash else Ok (hash (hexi v)))
+            | _ -> raise Exit) (split ',' bkn) in
         let od = List.map (fun e -> match split '=' e with
             | [k; v] -> (n_of_int (hexi k),
                          if v = "-" then None else if v = "?" then Some never_hash else Some (hash (hexi v)))
             | _ -> raise Exit) (split ',' dbn) in
-        Some { o_highest = oh; o_bynum = ob; o_flags = ofl; o_tries = n_of_int (hexi tl); o_dbnum = od }
+        Some { o_highest = oh; o_bynum = ob; o_flags = ofl; o_tries = n_of_int (hexi tl); o_dbnum = od; o_blocknum = okn }
       with _ -> None)
     | _ -> None in
   let str_add = function Ok _ -> "ok" | Err c -> "e" ^ string_of_int (int_of_nat c) | Panic -> "panic" | OutOfFuel -> "fuel" in
@@ -146,12 +152,13 @@ let check inp obs =
                         else "failed but changed the state: before=" ^ b ^ " after=" ^ a)
                      else begin
                        let f' = f_fin !fs h in
-                       if not (check_by_number f' oa) then "by-number lookup / database number index of the finalised chain: " ^ a
+                       if not (check_by_number f' oa) then "by-number lookup (hash, whole block) / database number index of the finalised chain: " ^ a
                        else begin
                          let left = List.filter (fun (x, _) -> f_abandoned f' x) oa.o_flags in
                          "leftovers of abandoned blocks [" ^ String.concat "," (List.map (fun (x, fl) ->
-                             Printf.sprintf "%s:%s%s%s%s" (id_of x) (if fl.fl_has then "H" else "") (if fl.fl_get then "G" else "")
-                               (if fl.fl_unfin then "U" else "") (if fl.fl_trie then "T" else "")) left) ^ "]"
+                             Printf.sprintf "%s:%s%s%s%s%s%s" (id_of x) (if fl.fl_has then "H" else "") (if fl.fl_get then "G" else "")
+                               (if fl.fl_unfin then "U" else "") (if fl.fl_trie then "T" else "")
+                               (if fl.fl_body then "B" else "") (if fl.fl_block then "K" else "")) left) ^ "]"
                        end
                      end in
                    note k (Printf.sprintf "SetFinalisedHash(%s, set %s)=%s: %s" (id_of h) s (if ok then "ok" else "err") why)
